@@ -23,6 +23,7 @@ func c12UsageCheck(t vh.Fataler, rec *vh.Rec, e *C12Env, u C12UsageCase) {
 func TestVerif_C12_usage(t *testing.T) {
 	rec := vh.NewRec("C12", "usage", "rapid-generated registrar configurations (override percentage per transport drawn from 5..100, mostly below 100; 1-5 weighted override subnets per transport, weights 1-3, optional zero-weight and foreign-transport entries, any order, no exclusion hit) x N = ceil(26/(p*s)) derived requests per transport (p = percentage/100, s = smallest non-zero weight share) through RegisterBidirectional; every subnet with a non-zero weight must be chosen at least once (P[false alarm] < 5.2e-11 per case) and a zero-weight subnet never; non-trivial = some transport has >= 2 weighted subnets; distinct by configuration")
 	defer rec.Flush()
+	defer func() { rec.Extra("open_fds_at_end_sum_over_shards", C12OpenFDs()) }()
 	rec.Require("built-by-exported-constructor:auth=true", "built-by-exported-constructor:auth=false", "several-weighted-subnets", "zero-weight-before-all-weighted", "zero-weight-before-a-weighted", "zero-weight-last",
 		"percentage-below-100-with-several-weighted-subnets", "weighted-subnet-written-non-canonically")
 	e := C12NewEnv(t)
